@@ -10,7 +10,8 @@
     self_prefix_default_choice simple_eq_generic_fragments_pattern true_pred_default_choice
     simple_eq_generic_spellings_partial simple_eq_generic_spellings_pattern simple_eq_generic_attr
     simple_eq_generic interior_attribute_not_simple true_pred_default_choice_full
-    self_prefix_default_choice_pattern supports_probe_systematic
+    self_prefix_default_choice_pattern supports_probe_systematic self_prefix_irrelevant_pattern
+    true_pred_irrelevant_pattern self_prefix_pattern_default
 -/
 import Genshi.Model.Path
 import Genshi.Model.PathParse
@@ -104,19 +105,20 @@ theorem runTest_single (steps : List Step) (ic : Bool) (ns : NsMap) (vs : Vars) 
     reports.  Proved by a simulation: the depth counter abstracts the position stack, the single
     counter list is the counter of the one context node (`Lemmas/PathSingle.lean`).
 
-    Hypotheses: the stream is the flattening of ONE element (with several top-level elements
+    Hypothesis: the stream is the flattening of ONE element (with several top-level elements
     the two differ on positional predicates: `forest_positional_differs`, finding
-    C17-forest-positional); on the attribute axis the node test is one the parser builds for
-    that axis. -/
+    C17-forest-positional).  No hypothesis on the node test any more: on the attribute axis
+    the parser also builds node-type tests (`attribute::text()`), for which SingleStepStrategy
+    used to report `False` where GenericStrategy reports `None` (fixed finding
+    C17-single-attribute-false, genshi fix 996160a: `… or None`). -/
 theorem single_eq_generic (s : Step) (ic skip : Bool) (ns : NsMap) (vs : Vars)
-    (tag : QName) (attrs : AttrList) (kids : List Node) (hok : okList kids = true)
-    (hattr : s.axis = .attribute → s.test.attrFlag = true) :
+    (tag : QName) (attrs : AttrList) (kids : List Node) (hok : okList kids = true) :
     traceCaller (pathTest [[s]] ic (some .single)).1 ns vs skip (pathTest [[s]] ic (some .single)).2
         (Node.elem tag attrs kids).flatten
       = traceCaller (pathTest [[s]] ic (some .generic)).1 ns vs skip (pathTest [[s]] ic (some .generic)).2
         (Node.elem tag attrs kids).flatten := by
   simp only [traceCaller, pathTest, List.map_cons, List.map_nil, mkMatcher]
-  rw [runTest_generic, runTest_single, single_eq_generic_run s ic ns vs tag attrs kids hok hattr]
+  rw [runTest_generic, runTest_single, single_eq_generic_run_full s ic ns vs tag attrs kids hok]
 
 -- the hypotheses are satisfiable on a non-trivial input: `b[2]` on <a><b/><b/></a>
 example : okList [Node.elem ⟨[], ['b']⟩ [] [], Node.elem ⟨[], ['b']⟩ [] []] = true := by decide
@@ -1148,5 +1150,150 @@ example : 2 ≤ pathKmpAttr.length := by decide
 example : runTest (pathTest [dot :: pathKmpAttr] true).1 [] [] (pathTest [dot :: pathKmpAttr] true).2
     (Node.elem ⟨[], ['a']⟩ [] [Node.elem ⟨[], ['b']⟩ [(⟨[], ['x']⟩, ['1'])] []]).flatten
     = [.none, .attrs [(⟨[], ['x']⟩, ['1'])], .none, .none] := by decide +kernel
+
+/-! ## Pattern mode with position tests: `./p` and always-true predicates under GenericStrategy -/
+
+/-- **`./p` ≡ `p` as patterns, in full** — every non-empty location path `p` (any axes, any
+    tests, any predicates, positional ones included), both caller behaviours, EVERY stream (no
+    hypothesis on it): in pattern mode GenericStrategy drops the leading `./` before matching
+    (`stripDot`, genshi fix b90ae9a), so the two matchers run on the same step list. -/
+theorem self_prefix_irrelevant_pattern (p : LocPath) (hne : p ≠ []) (ns : NsMap) (vs : Vars) (skip : Bool)
+    (es : List Event) :
+    traceCaller (pathTest [dot :: p] true (some .generic)).1 ns vs skip
+        (pathTest [dot :: p] true (some .generic)).2 es
+      = traceCaller (pathTest [p] true (some .generic)).1 ns vs skip
+        (pathTest [p] true (some .generic)).2 es := by
+  have hg : gSteps (dot :: p) true = gSteps p true := by
+    cases p with
+    | nil => exact absurd rfl hne
+    | cons s1 rest => simp [gSteps, stripDot, dot]
+  simp only [pathTest, List.map_cons, List.map_nil, mkMatcher, hg]
+
+theorem all2_gSteps_pattern' (ns : NsMap) (vs : Vars) (p1 p2 : LocPath) (h : All2 (StepEq ns vs) p1 p2)
+    (h1 : stripDot p1 = p1) (h2 : stripDot p2 = p2) :
+    All2 (StepEq ns vs) (gSteps p1 true) (gSteps p2 true) := by
+  cases h with
+  | nil => simp [gSteps, stripDot]; exact All2.nil
+  | @cons a b l l' hab hl =>
+    have hax : a.axis = b.axis := hab.1
+    simp only [gSteps, if_true, h1, h2, hax]
+    split
+    · exact All2.cons (StepEq.refl ns vs dotSlashSlash) (All2.cons hab hl)
+    · exact All2.cons ⟨rfl, hab.2.1, hab.2.2.1, hab.2.2.2⟩ hl
+
+/-- a bare `.` (`self::node()` without predicates) in front of further steps -/
+def BareDotFirst (p : LocPath) : Prop :=
+  ∃ s0 s1 rest, p = s0 :: s1 :: rest ∧ s0.axis = .self ∧ s0.preds = [] ∧ s0.test = .node
+
+theorem stripDot_of_not_bare (p : LocPath) (h : ¬ BareDotFirst p) : stripDot p = p := by
+  cases p with
+  | nil => rfl
+  | cons s0 r =>
+    cases r with
+    | nil => rfl
+    | cons s1 rest =>
+      simp only [stripDot]
+      split
+      · rename_i hc
+        simp only [Bool.and_eq_true, beq_iff_eq, List.isEmpty_iff] at hc
+        exact absurd ⟨s0, s1, rest, rfl, hc.1.1, hc.1.2, hc.2⟩ h
+      · rfl
+
+theorem insertPred_not_bare (p : LocPath) (i k : Nat) (t : Expr) (h : ¬ BareDotFirst p) :
+    ¬ BareDotFirst (insertPred p i k t) := by
+  rintro ⟨s0, s1, rest, hq, hax, hpr, hte⟩
+  cases p with
+  | nil => simp [insertPred] at hq
+  | cons a r =>
+    cases r with
+    | nil => simp [insertPred] at hq
+    | cons b r' =>
+      simp only [insertPred, List.mapIdx_cons, List.cons.injEq] at hq
+      obtain ⟨hq0, _, _⟩ := hq
+      by_cases hi : (0 == i) = true
+      · simp only [hi, if_true] at hq0
+        rw [← hq0] at hpr
+        simp at hpr
+      · simp only [hi, Bool.false_eq_true, if_false] at hq0
+        subst hq0
+        exact h ⟨a, b, r', rfl, hax, hpr, hte⟩
+
+/-- **an always-true predicate is irrelevant in pattern mode too** — every location path whose
+    first step is not a bare `.` (any predicates, positional ones included; an always-true
+    predicate on a leading bare `.` keeps that step from being dropped and moves the counting
+    of a position test on the next step: finding C17-pattern-first-step-position), `[t]`
+    inserted anywhere, EVERY stream: GenericStrategy as a pattern goes through the same states
+    and reports the same at every event. -/
+theorem true_pred_irrelevant_pattern (ns : NsMap) (vs : Vars) (t : Expr) (ht : AlwaysTrue ns vs t)
+    (p : LocPath) (hnb : ¬ BareDotFirst p) (i k : Nat) (skip : Bool) (es : List Event) :
+    (∀ (st : GState) (e : Event),
+        gStep (gSteps (insertPred p i k t) true) ns vs st e = gStep (gSteps p true) ns vs st e) ∧
+    traceCaller (pathTest [insertPred p i k t] true (some .generic)).1 ns vs skip
+        (pathTest [insertPred p i k t] true (some .generic)).2 es
+      = traceCaller (pathTest [p] true (some .generic)).1 ns vs skip
+        (pathTest [p] true (some .generic)).2 es := by
+  have hstep : gStep (gSteps (insertPred p i k t) true) ns vs = gStep (gSteps p true) ns vs := by
+    funext st e
+    exact gStep_congr ns vs _ _ (all2_gSteps_pattern' ns vs _ _ (all2_insert ns vs t ht k p i)
+      (stripDot_of_not_bare _ (insertPred_not_bare p i k t hnb)) (stripDot_of_not_bare _ hnb)) st e
+  refine ⟨fun st e => by rw [hstep], ?_⟩
+  simp only [pathTest, List.map_cons, List.map_nil, mkMatcher, traceCaller]
+  rw [runTest_generic, runTest_generic, hstep]
+
+-- non-vacuity: `b[2]` is not a bare-dot path; `.[true()]/b` is excluded
+example : ¬ BareDotFirst pathB2 := by
+  rintro ⟨s0, s1, rest, h, _⟩; simp [pathB2] at h
+
+/-- **`./p` ≡ `p` as patterns with the strategies `Path.__init__` picks, for EVERY path**: `./p`
+    goes to GenericStrategy; `p` to SingleStepStrategy (one step: `single_eq_generic`, position
+    tests included), SimplePathStrategy (`simple_eq_generic`) or GenericStrategy — same result at
+    every event of every element tree, both caller behaviours. -/
+theorem self_prefix_pattern_default (p : LocPath) (hne : p ≠ [])
+    (hpt : ∀ s ∈ p, s.axis ≠ .attribute → s.test.attrFlag = false)
+    (ns : NsMap) (vs : Vars) (skip : Bool)
+    (tag : QName) (attrs : AttrList) (kids : List Node)
+    (hcl : (Node.elem tag attrs kids).clean = true)
+    (hn : AllNodes (NodeFor p ns vs) (.elem tag attrs kids)) :
+    traceCaller (pathTest [dot :: p] true).1 ns vs skip
+        (pathTest [dot :: p] true).2 (Node.elem tag attrs kids).flatten
+      = traceCaller (pathTest [p] true).1 ns vs skip
+        (pathTest [p] true).2 (Node.elem tag attrs kids).flatten := by
+  have ho : strategyOrder = [.single, .simple, .generic] := by decide
+  have hc1 := chooses_generic_dot p hne
+  have e0 := self_prefix_irrelevant_pattern p hne ns vs skip (Node.elem tag attrs kids).flatten
+  have hd : pathTest [dot :: p] true = pathTest [dot :: p] true (some .generic) := by
+    simp only [pathTest, List.map_cons, List.map_nil, hc1, Option.getD_some]
+  rw [hd, e0]
+  by_cases h1 : p.length = 1
+  · -- one step: SingleStepStrategy
+    obtain ⟨s, rfl⟩ : ∃ s, p = [s] := by
+      cases p with
+      | nil => exact absurd rfl hne
+      | cons s r => cases r with
+        | nil => exact ⟨s, rfl⟩
+        | cons _ _ => simp at h1
+    have hc : chooseStrategy [s] = some .single := by
+      simp [chooseStrategy, ho, List.find?, Strategy.supports, singleSupports]
+    have hok : okList kids = true := by
+      have := ok_of_clean _ hcl
+      simpa [Node.ok] using this
+    have e1 := single_eq_generic s true skip ns vs tag attrs kids hok
+    have hd2 : pathTest [[s]] true = pathTest [[s]] true (some .single) := by
+      simp only [pathTest, List.map_cons, List.map_nil, hc, Option.getD_some]
+    rw [hd2, e1]
+  · have hs1 : singleSupports p = false := by unfold singleSupports; exact beq_false_of_ne h1
+    by_cases hsup : simpleSupports p = true
+    · have hc : chooseStrategy p = some .simple := by
+        simp [chooseStrategy, ho, List.find?, Strategy.supports, hs1, hsup]
+      have e2 := simple_eq_generic p hsup hpt true ns vs skip tag attrs kids hcl hn
+      have hd2 : pathTest [p] true = pathTest [p] true (some .simple) := by
+        simp only [pathTest, List.map_cons, List.map_nil, hc, Option.getD_some]
+      rw [hd2, e2]
+    · have hsup' : simpleSupports p = false := by simpa using hsup
+      have hc : chooseStrategy p = some .generic := by
+        simp [chooseStrategy, ho, List.find?, Strategy.supports, hs1, hsup']
+      have hd2 : pathTest [p] true = pathTest [p] true (some .generic) := by
+        simp only [pathTest, List.map_cons, List.map_nil, hc, Option.getD_some]
+      rw [hd2]
 
 end Genshi.Props.C17
